@@ -214,6 +214,15 @@ fn produce_image_from_entry(entry: &Entry) -> Result<image::RgbaImage, String> {
         format!("cannot transcode from unknown color format {}", format)
     })?;
 
+    // (a mismatch only produces a warning when the file is read, so it can still show up here)
+    let expected_size = cformat.bytes_per_pixel() as usize * content_width as usize * content_height as usize;
+    if texture_data.data.len() != expected_size {
+        return Err(format!(
+            "image data has the wrong size for its dimensions ({} bytes, expected {})",
+            texture_data.data.len(), expected_size,
+        ));
+    }
+
     let content_argb = cformat.transcode_to_argb_8888(&texture_data.data);
     let content = BgraImage::from_raw(content_width, content_height, &content_argb[..]).expect("size error?!");
 
